@@ -32,10 +32,27 @@ def _solve(args):
     return r
 
 
-def _solve1(smt2, timeout_ms, want_model, second_opinion=True):
+def _solve_portfolio(args):
+    """second attempt for an obligation left open: the same query under three other z3 random seeds (quantifier instantiation is
+    seed-sensitive: the same obligation takes 0.1 s or 10 s), then cvc5; the first definite answer wins"""
+    smt2, timeout_ms, want_model = args[:3]
+    t0 = time.time()
+    last = None
+    for seed in (1, 2, 3):
+        r = _solve1(smt2, timeout_ms, want_model, second_opinion=(seed == 3), seed=seed)
+        if r[0] != "unknown":
+            return (r[0], r[1], time.time() - t0, r[3] + f" (seed {seed})")
+        last = r
+    return (last[0], last[1], time.time() - t0, last[3])
+
+
+def _solve1(smt2, timeout_ms, want_model, second_opinion=True, seed=None):
     t = time.time()
     s = z3.Solver()
     s.set("timeout", timeout_ms)
+    if seed is not None:
+        s.set("random_seed", seed)
+        z3.set_param("smt.random_seed", seed)
     try:
         s.from_string(smt2)
         r = s.check()
@@ -93,19 +110,17 @@ def discharge_all(run, obs, timeout_ms=20000, procs=None, on_sat=None):
             out_ = pool.map(_solve, jobs, chunksize=8 if len(jobs) > 2000 else 1)
     for k, r in zip(todo, out_):
         res[k] = r
-    # second chance for obligations the solvers left open within the budget (a busy machine must not flip a verdict): the few that
-    # are left run again with three times the budget and at most four at a time; `unknown` stays undecided, never a violation
+    # second chance for obligations the solvers left open within the budget (a busy machine or an unlucky instantiation order must not
+    # flip a verdict): the few that are left run again under three other random seeds, at most four at a time; `unknown` stays
+    # undecided, never a violation
     again = [k for k in todo if res[k][0] == "unknown" and not obs[k].expect_sat]
     if again and not os.environ.get("VERIF_NO_RETRY"):
-        jobs2 = [(obs[k].smt2, timeout_ms * 3, True, obs[k].hints, obs[k].expect_sat) for k in again]
-        if len(jobs2) <= 1:
-            out2 = [_solve(j) for j in jobs2]
-        else:
-            with mp.get_context("fork").Pool(min(4, len(jobs2))) as pool:
-                out2 = pool.map(_solve, jobs2, chunksize=1)
+        jobs2 = [(obs[k].smt2, timeout_ms, True) for k in again]
+        with mp.get_context("fork").Pool(min(4, len(jobs2))) as pool:          # always in child processes: the seed is a global parameter
+            out2 = pool.map(_solve_portfolio, jobs2, chunksize=1)
         for k, r in zip(again, out2):
             if r[0] != "unknown":
-                res[k] = (r[0], r[1], res[k][2] + r[2], r[3] + " (second attempt, 3x budget)")
+                res[k] = (r[0], r[1], res[k][2] + r[2], r[3] + " (second attempt)")
         run.extra["second_attempts"] = run.extra.get("second_attempts", 0) + len(again)
     out = []
     for o, (status, detail, dt, backend) in zip(obs, res):
